@@ -205,7 +205,7 @@ for _k, _v in ADDENDA10.items():
 # rules added with seed round 11 ("performance / concurrency / lifecycle work", "boundary, arithmetic and time slips")
 ADDENDA11 = {
     "C01": ("; sync.Pool / sync.Map classed as nondeterministic, counting loops over maps accepted", ""),
-    "C02": ("; single-definition rule for the first retained index, fresh-server rule for the fold, first-entry rule for iterators, delegation of Persist followed", " Also decided: the base state is selected by the store's first index alone; the fold runs into a server made for this snapshot; no copy loop passes over the first entry."),
+    "C02": ("; the cached session expiration is restored with the state (C02.N6e); single-definition rule for the first retained index, fresh-server rule for the fold, first-entry rule for iterators, delegation of Persist followed", " Also decided: the base state is selected by the store's first index alone; the fold runs into a server made for this snapshot; no copy loop passes over the first entry."),
     "C03": ("; no-defaults rule for the restore, own-slices rule for the records", " Also decided: the restore reads no package-level default; every record is built from slices declared in the loop that builds it."),
     "C04": ("; write-before-leave rule for a received batch", " Also decided: no return lies between the receive of a batch and the loop that writes it."),
     "C06": ("; short-circuit facts, prefix and non-empty tests as length facts, scope extended to everything Apply reaches in the replicated packages", ""),
